@@ -56,6 +56,14 @@ instance (p : Int) (c : Comp) : Decidable (compOk p c) := by unfold compOk; infe
 /-- the NBT era: hypothesis about the external serialiser's output -/
 def compNbtOk (p : Int) (c : Comp) : Prop := p ≥ 765 → WfNbt (c.nbtType :: c.nbtData)
 
+/-- decidable form: the reference NBT reader accepts the blob exactly (nothing left over) -/
+def nbtClosed (blob : Bytes) : Bool :=
+  match vNbt blob with
+  | .ok (b, []) => b == blob
+  | _ => false
+def compNbtClosed (p : Int) (c : Comp) : Prop := p ≥ 765 → nbtClosed (c.nbtType :: c.nbtData) = true
+instance (p : Int) (c : Comp) : Decidable (compNbtClosed p c) := by unfold compNbtClosed; infer_instance
+
 /-! ## handshake, status -/
 
 def meantHandshake (h : Handshake) : VHandshake := ⟨h.pv, h.addr, h.port.toNat, h.next⟩
@@ -199,6 +207,12 @@ def entryOk (p : Int) (acts : List Action) (e : Entry) : Prop :=
   (acts.contains 6 = true → i32 e.listOrder)
 instance (p : Int) (acts : List Action) (e : Entry) : Decidable (entryOk p acts e) := by
   unfold entryOk; infer_instance
+
+/-- decidable form of `entryNbtOk` -/
+def entryNbtClosed (p : Int) (acts : List Action) (e : Entry) : Prop :=
+  acts.contains 5 = true → optAll e.display (compNbtClosed p)
+instance (p : Int) (acts : List Action) (e : Entry) : Decidable (entryNbtClosed p acts e) := by
+  unfold entryNbtClosed; infer_instance
 
 def entryNbtOk (p : Int) (acts : List Action) (e : Entry) : Prop :=
   acts.contains 5 = true → ∀ c, e.display = some c → compNbtOk p c
